@@ -115,9 +115,24 @@ def _strategy(draw):
     variant = None
     if draw(st.integers(0, 2)) == 0:
         variant = draw(_residue(resdefs[0]["resname"], "x"))
+    # an "isomer": the atom names of the first residue, bonded in another way (a different residue: own
+    # template, own size, own build-file entries), used in the same molecules as the first one
+    isomer = None
+    base = resdefs[0]
+    if base["vs"] is None and len(base["atoms"]) >= 3 and draw(st.integers(0, 2)) == 0:
+        n0 = len(base["atoms"])
+        perm = list(draw(st.permutations(range(n0))))
+        old_edges = {frozenset((a, b)) for _, a, b, _l in base["bonds"]}
+        new_bonds = [[k, perm[a], perm[b], l] for k, a, b, l in base["bonds"]]
+        if {frozenset((a, b)) for _, a, b, _l in new_bonds} != old_edges:
+            isomer = {"resname": "RI", "atoms": [dict(a) for a in base["atoms"]], "bonds": new_bonds,
+                      "angles": [], "impropers": [], "vs": None}
+            resdefs = resdefs + [isomer]
     moltypes = []
     for mi in range(draw(st.integers(1, 2))):
         pool = list(resdefs)
+        if isomer is not None:
+            pool = pool + [base, isomer]
         if variant is not None and mi == 1:
             pool = [variant] + resdefs[1:]
         nres = draw(st.integers(1, 4))
@@ -427,6 +442,7 @@ def check(spec, ctx):
     mol_names = [n for n, c in spec["molecules"] for _ in range(c)]
     seen = {}       # canonical description -> template key
     key_names = {}  # template key -> atom name multiset
+    key_canon = {}  # template key -> canonical residue (names, bonds)
     shared = 0
     has_vs = False
     for mi, meta in enumerate(topology.molecules):
@@ -465,6 +481,11 @@ def check(spec, ctx):
                     raise Violation("grouping:equal_residues_split", f"residue {rd['resname']}: keys {seen[canon]} and {key}")
                 shared += 1
             seen[canon] = key
+            if key in key_canon and key_canon[key][:2] != canon[:2]:
+                raise Violation("grouping:distinct_residues_share_template",
+                                f"template {key} serves residue {rd['resname']} (bonds {canon[1]}) and another residue with the "
+                                f"same atom names but bonds {key_canon[key][1]}")
+            key_canon[key] = canon
             multiset = tuple(names)
             if key in key_names and key_names[key] != multiset:
                 raise Violation("grouping:shared_template", f"template {key} is shared by residues with atom names {key_names[key]} and {multiset}")
